@@ -39,7 +39,7 @@ PROP = {
         "Wm.Relay.wrap_intact", "Wm.Relay.fwdPublish_once", "Wm.Relay.fwdPublish_refuses_empty_topic", "Wm.Relay.effTopic_ne_nil",
         "Wm.Relay.forwarder_end_to_end",
         "Wm.Relay.ack_after_destination", "Wm.Relay.nack_on_destination_failure_requeuer", "Wm.Relay.settle_last",
-        "Wm.Relay.stream_eq_map", "Wm.Relay.stream_accepted_eq_acked", "Wm.Relay.relay_streams",
+        "Wm.Relay.stream_eq_map", "Wm.Relay.stream_accepted_eq_acked", "Wm.Relay.relay_streams", "Wm.Relay.requeuer_streams",
     ],
     "tie_theorems": ["Wm.GoRelay.extracted_requeuer_eq_model", "Wm.GoRelay.extracted_unwrap_eq_model",
                      "Wm.GoRelay.extracted_forward_eq_model"],
@@ -52,7 +52,7 @@ PROP = {
             "destination publisher that records, inside Publish, topic/uuid/payload/metadata, object identity and whether the consumed message "
             "was still unsettled, and fails on scripted calls; settlement is read from Acked()/Nacked(). "
             "rq: Requeuer (default and caller-supplied Router) - counter table {absent, 0, 1, 7, +5, ' 5', x, -3, 007, MaxInt64-1, MaxInt64 (known "
-            "finding), 2^63, MinInt64, 1_0, non-ASCII digits, ...}, 150 (quick) / 1500 (thorough) random messages with arbitrary-byte "
+            "finding), 2^63, MinInt64, 1_0, non-ASCII digits, ...}, 150 (quick) / 4500 (thorough) random messages with arbitrary-byte "
             "uuids/metadata, topic generator ok/error, destination failing at random or from the k-th message on, cancelled contexts, "
             "12-fold repeated requeue of one message, concurrent bursts of 4..15 messages, Delay>0 with live and cancelled contexts. "
             "fwd: Forwarder with AckWhenCannotUnwrap off/on x 21 payload classes (wrap, hand-written JSON, minimal, extra fields, "
